@@ -245,9 +245,60 @@ impl BitVecValue {
         ensures r.w() == 1, r.v() == b2n(value),
     { unimplemented!() }
 
-    /// `impl From<bool> for BitVecValue` (forwards to from_bool)
+    /// `impl From<bool> for BitVecValue` and `impl From<BitVecValueRef<'_>> for BitVecValue` (R9 spells `x.into()` as `BitVecValue::from(x)`)
     #[verifier::external_body]
-    pub fn from(value: bool) -> (r: BitVecValue)
-        ensures r.w() == 1, r.v() == b2n(value),
+    pub fn from<T: IntoBitVecValue>(value: T) -> (r: BitVecValue)
+        ensures r.w() == value.into_w(), r.v() == value.into_v(),
+    { unimplemented!() }
+}
+
+pub trait IntoBitVecValue: Sized {
+    spec fn into_w(&self) -> int;
+    spec fn into_v(&self) -> int;
+}
+impl IntoBitVecValue for bool {
+    open spec fn into_w(&self) -> int { 1 }
+    open spec fn into_v(&self) -> int { b2n(*self) }
+}
+impl<'a> IntoBitVecValue for BitVecValueRef<'a> {
+    open spec fn into_w(&self) -> int { self.w() }
+    open spec fn into_v(&self) -> int { self.v() }
+}
+
+// ---------------------------------------------------------------------------------------------------------------
+// baa::ArrayValue — ASSUMED: the array operations implement SMT-LIB ArraysEx select / store / constant array / equality
+// on the denotation `den()` of the value (Kani cannot run them: sparse arrays are backed by std HashMap).
+// ---------------------------------------------------------------------------------------------------------------
+#[verifier::external_body]
+pub struct ArrayValue { _p: u8 }
+
+impl ArrayValue {
+    pub uninterp spec fn den(&self) -> Den;
+    pub uninterp spec fn iw(&self) -> int;
+    pub uninterp spec fn dw(&self) -> int;
+
+    #[verifier::external_body]
+    pub fn select(&self, index: &BitVecValue) -> (r: BitVecValue)
+        requires index.w() == self.iw(),
+        ensures r.w() == self.dw(), d_lit(r.w(), r.v()) == d_select(self.den(), d_lit(index.w(), index.v())),
+    { unimplemented!() }
+
+    #[verifier::external_body]
+    pub fn store(&mut self, index: &BitVecValue, data: &BitVecValue)
+        requires index.w() == old(self).iw(), data.w() == old(self).dw(),
+        ensures final(self).iw() == old(self).iw(), final(self).dw() == old(self).dw(),
+                final(self).den() == d_store(old(self).den(), d_lit(index.w(), index.v()), d_lit(data.w(), data.v())),
+    { unimplemented!() }
+
+    #[verifier::external_body]
+    pub fn new_sparse(index_width: WidthInt, default: &BitVecValue) -> (r: ArrayValue)
+        requires index_width >= 1,
+        ensures r.iw() == index_width, r.dw() == default.w(), r.den() == d_const_array(index_width as int, d_lit(default.w(), default.v())),
+    { unimplemented!() }
+
+    /// None when the two values have different types
+    #[verifier::external_body]
+    pub fn is_equal(&self, other: &ArrayValue) -> (r: Option<bool>)
+        ensures (self.iw() == other.iw() && self.dw() == other.dw()) ==> r is Some && d_lit(1, b2n(r->Some_0)) == d_array_eq(self.den(), other.den()),
     { unimplemented!() }
 }
